@@ -39,8 +39,10 @@ EXC = {1: FileNotFoundError(2, 'No such file'), 2: PermissionError(13, 'denied')
 
 
 class Sim:
-    def __init__(self, files):
-        """files: dict name(str) -> bytes | int tag (1 notfound 2 permission 3 isdir 4 oserror)"""
+    def __init__(self, files, handler_cls=None, server_attrs=None, addr_fn=None):
+        """files: dict name(str) -> bytes | int tag (1 notfound 2 permission 3 isdir 4 oserror)
+        handler_cls: a TFTPBaseHandler subclass to use instead of the in-memory one (e.g. BootHandler)"""
+        self.addr_fn = addr_fn or addr_of
         import nobodd.tftpd as T
         self.T = T
         self.files = files
@@ -72,14 +74,19 @@ class Sim:
             server_address = ('127.0.0.1', 69)
             subs = Subs()
         self.main = Main()
+        for k, v in (server_attrs or {}).items():
+            setattr(self.main, k, v)
 
         class H(T.TFTPBaseHandler):
             def resolve_path(h, filename):
                 spec = sim.files.get(filename, 1)
-                if isinstance(spec, int):
+                if len(filename) > 255:
+                    # what opening such a path on a real file-system gives: the text quotes the name
+                    spec = OSError(36, 'File name too long', '/srv/tftp/' + filename)
+                elif isinstance(spec, int):
                     spec = EXC[spec]
                 return FakePath(filename, spec, sim.opened)
-        self.H = H
+        self.H = handler_cls or H
 
     def restore(self):
         import importlib, time
@@ -106,10 +113,10 @@ class Sim:
         self.log.clear()
         raised = None
         if tid == 0:
-            raised = self._run_handler(self.H, self.main, dgram, addr_of(src), FakeSock(self.log, 0))
+            raised = self._run_handler(self.H, self.main, dgram, self.addr_fn(src), FakeSock(self.log, 0))
         elif tid in self.subs and not self.subs[tid].dead:
             s = self.subs[tid]
-            raised = self._run_handler(self.T.TFTPSubHandler, s, dgram, addr_of(src), s.socket)
+            raised = self._run_handler(self.T.TFTPSubHandler, s, dgram, self.addr_fn(src), s.socket)
         return list(self.log), raised
 
     def tick(self, tid, now):
@@ -211,6 +218,8 @@ class Session:
         self.sim.restore()
 
     def compare(self, ctx, R, sig_prefix):
+        if R is None:
+            return True
         mfiles = [(k, 0, bytes(v)) if isinstance(v, (bytes, bytearray)) else (k, v, b'') for k, v in self.files.items()]
         mevs = []
         for e, fl in zip(self.events, self.fl):
